@@ -97,6 +97,26 @@ def emit_fn(g, key, fx, contract, rowprefix):
     `views` (optional): {name: dict(clauses={ids}, base={ids})}: the clauses of a view are proved on a SECOND copy of the same extracted body
     (fn <name>__<view>) together with the base clauses only, which keeps each solver query small; the main copy carries all other clauses."""
     first = len(g.lines) + 1
+    # locals of the real code that the loop contracts speak about are found by their ROLE (declaration pattern), not by their name
+    for canon, pat in contract.get('local_names', {}).items():
+        ms = re.findall(pat, fx['body'])
+        if len(ms) != 1:
+            raise Unsupported('%s: the local `%s` named in the contract was not found by its declaration pattern (%d matches)' % (key, canon, len(ms)))
+        if ms[0] != canon:
+            fx = dict(fx); fx['body'] = re.sub(r'(?<![\.\w])%s\b' % re.escape(ms[0]), canon, fx['body'])
+    # parameters are known to the contracts by POSITION: a renamed parameter is renamed back to the name the contract uses
+    if contract.get('param_names'):
+        pm = re.search(r'\(([^)]*)\)', fx['sig'])
+        ps = [x.strip() for x in pm.group(1).split(',')] if pm else []
+        ps = [x for x in ps if x and not re.match(r'(&\s*(mut\s+)?)?(mut\s+)?self$', x)]
+        names = [re.sub(r'^mut\s+', '', x.split(':')[0].strip()) for x in ps]
+        if len(names) != len(contract['param_names']):
+            raise Unsupported('%s: parameter list changed (%s)' % (key, names))
+        for have, want in zip(names, contract['param_names']):
+            if have != want:
+                fx = dict(fx)
+                fx['sig'] = re.sub(r'(?<![\.\w])%s\b' % re.escape(have), want, fx['sig'])
+                fx['body'] = re.sub(r'(?<![\.\w])%s\b' % re.escape(have), want, fx['body'])
     views = contract.get('views', {})
     in_view = set().union(*[v['clauses'] for v in views.values()]) if views else set()
     emit_fn_copy(g, key, fx, contract, rowprefix, '', lambda cid: cid not in in_view)
